@@ -50,6 +50,16 @@ def _targeted(rng):
         b = genb.rnd_bundle(rng, nblocks=0, crc_kind=0)
         b["cs"].insert(0, dict(type=192, num=num, flags=0, crc=("N",), data=("UNK", b"")))
         out.append(genb.ref_bundle(b)[0])
+    # extension-block data of a known type that is a LONG non-ASCII text string instead of the expected item (the error message a decoder
+    # builds from it must not be cut in the middle of a character): every alignment of 2- and 3-byte characters
+    for ty in (6, 7, 10):
+        for shift in range(4):
+            for ch, n in (("é", 70), ("€", 50), ("é", 130)):
+                txt = (b"a" * shift) + ch.encode() * n
+                data = genb.head(3, len(txt)) + txt
+                b = genb.rnd_bundle(rng, nblocks=0, crc_kind=0)
+                b["cs"].insert(0, dict(type=ty, num=2, flags=0, crc=("N",), data=("UNK", data)))
+                out.append(genb.ref_bundle(b)[0])
     for ssp in [b"abc", b"/", b"//", b"//x", b"a/b/c", "é".encode(), b"///"]:
         b = genb.rnd_bundle(rng, nblocks=1, crc_kind=0)
         b["p"]["src"] = ("DTN", 1, ssp)
